@@ -265,6 +265,21 @@ def random_tab(rng, *, box_action=None, box_obs=None, mask=None, nS=None, trunc_
     return spec
 
 
+def chain_tab(rng, K, box_action=False):
+    """deterministic chain 0 -> 1 -> ... -> K (terminal), initial state 0: under TimeLimit(n) an episode ends by
+    pure truncation (n < K), by termination AND truncation on the same step (n == K) or by pure termination (n > K)"""
+    A = 2
+    dy = lambda lo, hi, den: float(rng.integers(lo, hi + 1)) / den
+    S = K + 1
+    spec = {"P": [[[min(s + 1, K)] for _ in range(A)] for s in range(S)],
+            "R": [[[dy(-8, 8, 4) for _ in range(S)] for _ in range(A)] for _ in range(S)],
+            "RA": 0.5 if box_action else 1.0, "RN": [0.0],
+            "T": [[s == K] for s in range(S)], "TR": [False] * S, "I": [0], "MK": None,
+            "O": [[s] for s in range(S)], "osp": ["disc", S]}
+    spec["asp"] = ["box", False, -1.0, 1.0] if box_action else ["disc", A]
+    return spec
+
+
 # ----------------------------------------------------------------------------
 # wrapper stacks
 # ----------------------------------------------------------------------------
